@@ -1,5 +1,6 @@
 import QV.C15.Lemmas
 import QV.C15.Denote
+import QV.C15.Unitary
 import QV.C14.Props
 import QV.C14.Complex
 /-
@@ -193,6 +194,52 @@ theorem C15_program_eq_denote (n : Nat) (hn : n ≤ 5) (sgs : List (SpecGate K))
     rw [h2] at this
     exact this
 
+/-! ### Unitarity -/
+
+/-- **Every computed gate unitary is unitary** (all stacks; real parameters): under the hypotheses of
+`C15_toUnitary_eq_denote` and `star θ = θ` for every parameter, the matrix `D` that `Gate::to_unitary`
+returns is a well-formed `2^n × 2^n` matrix with `Dᴴ·D = I` and `D·Dᴴ = I`. -/
+theorem C15_gate_unitary (ms : List Modifier) (name : String) (θs : List K) (qs : List Nat) (n : Nat)
+    (D : Mat K) (hn : n ≤ 5) (hv : validPlacement qs n = true) (hreal : ∀ θ ∈ θs, star θ = θ)
+    (hD : denote n ms name θs qs = some D) :
+    toUnitary (toGate (ms, name, θs, qs)) n = .ok (.ok D) ∧
+      Sq n D ∧ mul (adjoint D) D = eye (2 ^ n) ∧ mul D (adjoint D) = eye (2 ^ n) := by
+  obtain ⟨_, hlt, hnd⟩ := (C14_validPlacement_iff qs n).mp hv
+  exact ⟨C15_toUnitary_eq_denote ms name θs qs n D hn hv hD, (denote_unitary ms name θs qs D hlt hnd hreal hD).1⟩
+
+/-- **Every program unitary is unitary** (any length): the product denoted by a program of well-formed gate
+applications with real parameters is unitary (and by `C15_program_eq_denote` it is what `Program::to_unitary`
+returns for `n ≤ 5`). -/
+theorem C15_program_unitary (n : Nat) : ∀ (sgs : List (SpecGate K)) (P : Mat K),
+    (∀ sg ∈ sgs, validPlacement sg.2.2.2 n = true) → (∀ sg ∈ sgs, ∀ θ ∈ sg.2.2.1, star θ = θ) →
+    denoteProg n sgs = some P →
+    Sq n P ∧ mul (adjoint P) P = eye (2 ^ n) ∧ mul P (adjoint P) = eye (2 ^ n) := by
+  intro sgs
+  induction sgs with
+  | nil =>
+    intro P _ _ h
+    simp only [denoteProg] at h
+    injection h with h; subst h
+    exact isUnitary_eye n
+  | cons sg rest ih =>
+    intro P hv hreal h
+    obtain ⟨ms, name, θs, qs⟩ := sg
+    simp only [denoteProg] at h
+    cases hd : denote n ms name θs qs with
+    | none => rw [hd] at h; simp at h
+    | some D =>
+      cases hr : denoteProg n rest with
+      | none => rw [hd, hr] at h; simp at h
+      | some R =>
+        rw [hd, hr] at h; simp only at h; injection h with h; subst h
+        have hv0 : validPlacement qs n = true := hv (ms, name, θs, qs) List.mem_cons_self
+        obtain ⟨_, hlt, hnd⟩ := (C14_validPlacement_iff qs n).mp hv0
+        have uD := (denote_unitary ms name θs qs D hlt hnd
+          (hreal (ms, name, θs, qs) List.mem_cons_self) hd).1
+        have uR := ih R (fun sg hsg => hv sg (List.mem_cons_of_mem _ hsg))
+          (fun sg hsg => hreal sg (List.mem_cons_of_mem _ hsg)) hr
+        exact IsUnitary.mul uR uD
+
 /-- non-vacuity over `ℂ`: `FORKED CONTROLLED RX(a, b) 2 1 0` on 3 qubits has a denotation, so the theorems
 above apply to it (this is the stack the unrepaired code got wrong). -/
 example (a b : ℂ) : ∃ D, denote 3 [.forked, .controlled] "RX" [a, b] [2, 1, 0] = some D ∧
@@ -201,5 +248,15 @@ example (a b : ℂ) : ∃ D, denote 3 [.forked, .controlled] "RX" [a, b] [2, 1, 
     simp [denote, specMatrix]
   obtain ⟨D, hD⟩ := Option.isSome_iff_exists.mp h
   exact ⟨D, hD, C15_toUnitary_eq_denote _ _ _ _ 3 D (by norm_num) (by decide) hD⟩
+
+/-- non-vacuity of the unitarity theorem over `ℂ` with real angles -/
+example (a b : ℝ) : ∃ D, toUnitary (toGate ([.forked, .controlled], "RX", [(a : ℂ), (b : ℂ)], [2, 1, 0])) 3 = .ok (.ok D) ∧
+    mul (adjoint D) D = eye (2 ^ 3) := by
+  have h : (denote 3 [.forked, .controlled] "RX" [(a : ℂ), (b : ℂ)] [2, 1, 0]).isSome = true := by
+    simp [denote, specMatrix]
+  obtain ⟨D, hD⟩ := Option.isSome_iff_exists.mp h
+  have := C15_gate_unitary _ _ _ _ 3 D (by norm_num) (by decide)
+    (by intro θ hθ; simp at hθ; rcases hθ with rfl | rfl <;> exact Complex.conj_ofReal _) hD
+  exact ⟨D, this.1, this.2.2.1⟩
 
 end QV.C15
